@@ -378,10 +378,9 @@ func (m nsIQMatcher) Match(p stanza.Packet, match *RouteMatch) bool {
 
 // IQNamespaces adds an IQ matcher, expecting both an IQ and a
 func (r *Route) IQNamespaces(namespaces ...string) *Route {
-	for k, v := range namespaces {
-		namespaces[k] = strings.ToLower(v)
-	}
-	return r.AddMatcher(nsIQMatcher(namespaces))
+	// Namespace names are case-sensitive: they are compared as given. The caller's slice is
+	// neither modified nor retained.
+	return r.AddMatcher(nsIQMatcher(append([]string(nil), namespaces...)))
 }
 
 // ============================================================================
